@@ -160,13 +160,23 @@ def run(tier):
     if not quick:
         for after in range(0, 30, 3):
             scen.append({"id": len(scen), "kind": "stop", "proto": "cmp-sign", "n": 3, "t": 2, "byz": "", "who": "b", "after": after, "sched": sd + len(scen)})
+    # sessions that END IN AN ERROR inside a round (a Finalize that fails, in both handlers): a peer that computes with
+    # inconsistent inputs while all its messages are well-formed (DoernerAlg.tla / FrostAlg.tla deviations) - the honest
+    # handler must end cleanly (no panic in Accept / CanAccept / Result afterwards, channel closed once)
+    for k, (rule, byz) in enumerate((r, b) for r in ("share", "public", "ot", "kinv") for b in ("a", "b")):
+        scen.append({"id": len(scen), "kind": "doernercheat", "proto": "doerner-sign", "n": 2, "t": 1, "byz": byz, "rule": rule, "sched": sd * 3 + k})
+    for k, (pr, rule, byz) in enumerate((pr, r, b) for pr in ("frost-sign", "taproot-sign") for r in ("z", "nonce", "share") for b in ("a", "c")):
+        if quick and (k + sd) % 2:
+            continue
+        scen.append({"id": len(scen), "kind": "frostcheat", "proto": pr, "n": 3, "t": 1, "byz": byz, "rule": rule, "sched": sd * 3 + k})
     outcomes, problems, stats = hc.run_adversarial(wd, scen, "life", sd, shards=10)
     states += stats["distinct"]; trans += stats["generated"]
     for i, o in outcomes.items():
         for v in o.get("viol") or []:
-            if v["prop"] in ("C17",) or v["what"] in ("panic", "hang"):
+            if v["prop"] in ("C17",) or v["what"] in ("panic", "hang", "process-killed"):
                 s = scen[i]
-                rep.violation({"proto": s["proto"], "what": v["what"]}, "%s, Stop by %s after %s deliveries: %s" % (s["proto"], s.get("who"), s.get("after"), v["detail"]), {"scenario": s, "violation": v})
+                what = "Stop by %s after %s deliveries" % (s.get("who"), s.get("after")) if s["kind"] in ("stop", "honest") else "%s by %s (%s)" % (s["kind"], s.get("byz"), s.get("rule"))
+                rep.violation({"proto": s["proto"], "what": v["what"]}, "%s, %s: %s" % (s["proto"], what, v["detail"]), {"scenario": s, "violation": v})
     for pr in problems:
         g = pr["group"]
         rep.violation({"proto": g["proto"], "what": "trace-" + (pr["violated"] or "rejected")},
